@@ -2,8 +2,8 @@
 MODULES=['bits_reg']
 
 def rtl_specs():
-  from . import rtl_arb
-  return list(rtl_arb.SPECS)
+  from . import rtl_arb, rtl_queues
+  return list(rtl_arb.SPECS)+list(rtl_queues.SPECS)
 def rtl_spec(key):
   for sp in rtl_specs():
     if sp.key==key: return sp
@@ -34,4 +34,9 @@ PROPERTIES={
    note="The update-block ASTs of the real classes are executed symbolically over bit-vectors in the real schedule order (GenDAGPass + DynamicSchedulePass run for real); operator semantics = postconditions of the Bits contracts (C04/C05) via the transfer table of rtlvc/bvsem.py (self-checked by z3 for small widths). Trusted: AstHelper's read/write extraction used by the scheduler, the tick composition (C01/C07), rtlvc itself. nreqs is enumerated, not symbolic.",
    extra=['contracts:rtl_extra'], require_cover=False,
    assumptions=["structure parameter nreqs enumerated 2..8 (quick) / 2..16 (thorough); a proof for symbolic nreqs would need a parametric netlist = a hand-written model (refused)"]),
+ 'C17': dict(level='proof', engine='rtlvc',
+   claim="Proof per configuration (capacity 1..4 quick / 1..8 thorough, entry width 1 and 8 with symbolic contents; unbounded in histories): the six RTL queue classes of stdlib/queues/queues.py and stdlib/stream/queues.py refine a FIFO: with the abstraction seq = [regs[(head+i) mod n] : i < count] and the invariant count<=n, head,tail<n, tail=(head+count) mod n, every protocol-legal cycle gives the rdy/val table of the statement for the queue kind, the dequeued message is the oldest accepted one (bypass: the incoming one when empty), count is the occupancy, and seq' = (seq ++ [msg] if enq)[1:] if deq. Violations are reported as traces from reset replayed on the real simulator.",
+   note="Not covered: cycle-level queues (cl_queues.py: method scheduling is outside rtlvc), enrdy_queues.py, valrdy_queues.py (the latter does not import at the pinned commit). Capacity and width enumerated; contents symbolic (data independence is not assumed). Trusted: scheduler/tick composition (C01/C07), AstHelper, rtlvc.",
+   extra=['contracts:rtl_extra'], require_cover=False,
+   assumptions=["enq/deq interface users respect the protocol (en only when rdy) for the EnqIfc/DeqIfc flavour; stream flavour: no assumption"]),
 }
